@@ -455,6 +455,8 @@ fn join_vals(vs: &[V]) -> String {
 
 fn main() {
     let args = Args::parse();
+    // sort()/BTreeMap may panic on an unlawful order; those are caught and reported as cases
+    std::panic::set_hook(Box::new(|_| {}));
     let known = Known::load(&args.known, "C10");
     let mut rep = Report::new(
         "C10",
@@ -502,7 +504,7 @@ fn main() {
             "all {}^3 ordered triples over the enumerated boundary set of {} values (every variant; signed zeros, 4 NaN patterns, infinities, 2^53 and 2^63 neighbourhoods as Integer and Float, i64 extremes, empty/nested arrays and maps, vectors with 0/-0/NaN lanes, durations, datetimes, null); plus random sets (not exhaustive)",
             boundary.len(), boundary.len()
         );
-        let n_sets = if args.thorough() { 60_000 } else { 6_000 };
+        let n_sets = if args.thorough() { 40_000 } else { 6_000 };
         for _ in 0..n_sets {
             let mut set: Vec<V> = vec![];
             for _ in 0..6 {
@@ -516,7 +518,7 @@ fn main() {
             }
             sets.push(set);
         }
-        let n_sorts = if args.thorough() { 20_000 } else { 2_000 };
+        let n_sorts = if args.thorough() { 15_000 } else { 2_000 };
         for _ in 0..n_sorts {
             let len = 3 + rng.usize(28);
             let mut xs: Vec<V> = vec![];
@@ -742,6 +744,51 @@ fn main() {
                 first_break = Some(format!("{}\n{}", body, w));
             }
         }
+    }
+
+    // ---------------- 3. the conversion `i64 as f64` against the model's F64.cast ----------------
+    if args.replay.is_none() {
+        let mut ints: Vec<i64> = vec![0, 1, -1, i64::MAX, i64::MIN, i64::MAX - 1, i64::MIN + 1];
+        for e in 52..=63u32 {
+            let base: i128 = 1i128 << e;
+            for d in -3i128..=3 {
+                for half in [0i128, (1i128 << (e.saturating_sub(53))), (1i128 << (e.saturating_sub(52)))] {
+                    for sgn in [1i128, -1] {
+                        let v = sgn * (base + half + d);
+                        if v >= i64::MIN as i128 && v <= i64::MAX as i128 {
+                            ints.push(v as i64);
+                        }
+                    }
+                }
+            }
+        }
+        let n_rand = if args.thorough() { 400_000 } else { 40_000 };
+        for _ in 0..n_rand {
+            let r = rng.next_u64() as i64;
+            ints.push(match rng.below(4) {
+                0 => r,
+                1 => r >> rng.below(12),                       // around 2^52 .. 2^63
+                2 => (r >> rng.below(12)) | 1,                 // odd: never exactly representable above 2^53
+                _ => ((r >> 10) << 10) + (1 << 9) + rng.range(-1, 1), // next to a rounding tie
+            });
+        }
+        let mut mism = 0u64;
+        for chunk in ints.chunks(500) {
+            let line = format!("cast {}", chunk.iter().map(|i| i.to_string()).collect::<Vec<_>>().join(","));
+            let rp = driver::batch(&exe, &[line]);
+            let got: Vec<&str> = rp[0].strip_prefix("ok ").unwrap_or("").split(',').collect();
+            for (i, g) in chunk.iter().zip(got.iter()) {
+                rep.count("cast_checked");
+                let want = format!("{:016x}", (*i as f64).to_bits());
+                if *g != want {
+                    mism += 1;
+                    if first_break.is_none() {
+                        first_break = Some(format!("cast {}\nimpl  {}\nmodel {}", i, want, g));
+                    }
+                }
+            }
+        }
+        rep.count_n("cast_mismatch", mism);
     }
 
     if let Some(body) = first_break {
